@@ -93,6 +93,9 @@ inductive Chunk where
   | t408
   /-- recovery's 500 body -/
   | rec500
+  /-- bytes that are no well-formed document of any of the three writers (never written by the model; an
+      observation can contain it) -/
+  | other
   deriving Repr, DecidableEq, Inhabited
 
 structure St where
